@@ -397,7 +397,8 @@ func (index *uniqueIndex) CheckIntegrity(ctx MutateContext, fix bool, errorSink 
 	for entityCursor := index.symbol.GetStore().IterateValidIds(tx, ast.BoolNodeTrue); entityCursor.IsValid(); entityCursor.Next() {
 		id := entityCursor.Current()
 		fieldType, fieldVal := index.symbol.Eval(tx, id)
-		if fieldType == TypeNil {
+		// empty values are never indexed (see ProcessAfterUpdate), same as nil
+		if fieldType == TypeNil || len(fieldVal) == 0 {
 			if !index.nullable {
 				errorSink(errors.Errorf("entity with id %s has non-nillable unique index %v.%v, but field has nil value, unable to fix",
 					string(id), store.GetEntityType(), index.symbol.GetName()), false)
@@ -657,10 +658,14 @@ func (index *setIndex) CheckIntegrity(ctx MutateContext, fix bool, errorSink fun
 					}
 				}
 			} else {
-				// If key has no values, delete the key
-				if err := cursor.Delete(); err != nil {
-					return err
+				// a plain key/value can't be an index entry: report it, remove it only when fixing
+				if fix {
+					if err := cursor.Delete(); err != nil {
+						return err
+					}
 				}
+				errorSink(errors.Errorf("for index on %s.%s, key %s is not an index bucket",
+					index.symbol.GetStore().GetEntityType(), index.GetSymbol().GetName(), string(key)), fix)
 			}
 		}
 
